@@ -16,7 +16,7 @@ import (
 func init() {
 	Register(&Property{
 		ID: "C04",
-		Explanation: "Decides column-level agreement between what is written and what is read/matched, and that handlers write only validated tuples: (R04.1) the internal field written to a column by FromInternal/insertSubject is the field ToInternal reads from it, and the two subject kinds set/clear complementary columns; (R04.2) the INSERT's column list, the db tags of the values bound and the placeholders per row agree position by position; (R04.3) every predicate 'col = ?' (pop fragments, the DELETE builder, the traversal SELECT and its fragment function) is bound to the internal field that R04.1 maps to col, a subject id matches exactly {subject_id} and a subject set exactly the three subject_set_* columns, extra conjuncts are only IS NULL on the complementary columns; (R04.4) in whereQuery every Where is guarded by the non-nil test of the query field it binds and every query field has one; (R04.5) the DELETE is one conjunction per tuple over namespace, object, relation and subject, OR-ed across tuples, AND the network id; (R04.6) every write handler passes to the storage manager only what Mapper().FromTuple returned, and FromTuple appends a tuple only after an error-checked namespace lookup (also of the subject set's namespace) and Validate; (R04.11) in the transact/patch handlers a delta's tuple is collected only under a test of that delta's action (never positionally); (R04.10) every internal consumer of the paginated listing either hands the page token on or loops until it is empty, so nothing that means 'all matching relationships' acts on the first page only; (R04.9) a multi-tuple write or delete iterates its input whole or in tiles that cover it, so every input tuple reaches a statement; (R04.7) persistence/sql keeps no process-local mutable state (caches) besides the network id set at start-up, so what a statement sees is the database. " +
+		Explanation: "Decides column-level agreement between what is written and what is read/matched, and that handlers write only validated tuples: (R04.1) the internal field written to a column by FromInternal/insertSubject is the field ToInternal reads from it, and the two subject kinds set/clear complementary columns; (R04.2) the INSERT's column list, the db tags of the values bound and the placeholders per row agree position by position; (R04.3) every predicate 'col = ?' (pop fragments, the DELETE builder, the traversal SELECT and its fragment function) is bound to the internal field that R04.1 maps to col, a subject id matches exactly {subject_id} and a subject set exactly the three subject_set_* columns, extra conjuncts are only IS NULL on the complementary columns; (R04.4) in whereQuery every Where is guarded by the non-nil test of the query field it binds and every query field has one; (R04.5) the DELETE is one conjunction per tuple over namespace, object, relation and subject, OR-ed across tuples, AND the network id; (R04.6) every write handler passes to the storage manager only what Mapper().FromTuple returned, and FromTuple appends a tuple only after an error-checked namespace lookup (also of the subject set's namespace) and Validate; (R04.12) a REST write entry that reads the URL query also parses it strictly, so a malformed pair is rejected instead of silently widening the selection; (R04.11) in the transact/patch handlers a delta's tuple is collected only under a test of that delta's action (never positionally); (R04.10) every internal consumer of the paginated listing either hands the page token on or loops until it is empty, so nothing that means 'all matching relationships' acts on the first page only; (R04.9) a multi-tuple write or delete iterates its input whole or in tiles that cover it, so every input tuple reaches a statement; (R04.7) persistence/sql keeps no process-local mutable state (caches) besides the network id set at start-up, so what a statement sees is the database. " +
 			"Not decided: database or pop semantics, read-your-writes across connections, the multiset behaviour over histories.",
 		Assumptions: []string{
 			"the table's CHECK constraint makes the IS NULL conjuncts on complementary subject columns always true for stored rows",
@@ -426,6 +426,7 @@ func runC04(c *Ctx) {
 	// R04.10: nothing that acts on "all matching relationships" works from a single page of a paginated listing
 	c.R.SubRun(func() { r075(c, "R07.5") }, map[string]string{"R07.5": "R04.10"})
 	r0411(c)
+	r0412(c, "R04.12")
 }
 
 // ---- R04.6 handlers write only mapper-validated tuples ------------------------------------------
@@ -893,5 +894,59 @@ func r0411(c *Ctx) {
 	}
 	if n < 2 {
 		r.Undecide("R04.11", "", "delta tuples collected", "", fmt.Sprintf("%d found (floor 2: REST patch, gRPC transact)", n))
+	}
+}
+
+// ---- R04.12 a write request's selection is parsed strictly -------------------------------------------
+
+// r0412: (*url.URL).Query silently discards the pairs it cannot parse (a ';' in
+// a value, a bad escape). For a request that selects what to delete from its
+// query that widens the selection: DELETE ?namespace=n&object=a;b deletes the
+// whole namespace. Every REST write entry point that reads URL.Query() must
+// also reach a strict parse of the same query (url.ParseQuery, whose error is
+// the validator's verdict).
+func r0412(c *Ctx, rule string) {
+	p, r := c.P, c.R
+	entries, _ := p.Entries()
+	g := p.KG()
+	n := 0
+	for _, e := range entries {
+		if e.Transport != "rest" || e.Kind != "write" {
+			continue
+		}
+		lenient, strict := "", false
+		for f := range g.ReachLive([]*ssa.Function{e.Fn}, nil).Parent {
+			if pk := core.FuncPkg(f); pk == nil || !core.IsKeto(pk) {
+				continue
+			}
+			core.Instrs(f, func(_ *ssa.BasicBlock, _ int, ins ssa.Instruction) {
+				ci, ok := ins.(ssa.CallInstruction)
+				if !ok {
+					return
+				}
+				obj := core.CalleeObj(ci.Common())
+				if obj == nil || obj.Pkg() == nil || obj.Pkg().Path() != "net/url" {
+					return
+				}
+				switch obj.Name() {
+				case "Query":
+					if lenient == "" {
+						lenient = p.Pos(ins.Pos())
+					}
+				case "ParseQuery":
+					strict = true
+				}
+			})
+		}
+		if lenient == "" {
+			continue // the entry does not read the URL query
+		}
+		n++
+		r.Check(strict, rule, core.FuncName(e.Fn), "entry "+e.String(), lenient,
+			"the query is also parsed strictly (url.ParseQuery) on the way",
+			"the handler takes its selection from URL.Query(), which silently drops malformed pairs, and nothing parses the query strictly: a filter the client sent can vanish and the write applies to more relationships than asked (DELETE ?namespace=n&object=a;b)")
+	}
+	if n < 1 {
+		r.Undecide(rule, "", "write entries that read the URL query", "", "none found (floor 1: delete by query)")
 	}
 }
